@@ -25,7 +25,7 @@ def iso(t):
     return t.isoformat()
 
 
-def gen(rng, strategy, signal_case=False):
+def gen(rng, strategy, signal_case=False, shared=False):
     """one-connector scenario whose standing periods are feasible with a chosen margin.
     signal_case: the encouraged periods alone suffice with >= 1.3x margin (C11)"""
     interval = rng.choice([15, 15, 15, 10, 30, 60])
@@ -39,6 +39,11 @@ def gen(rng, strategy, signal_case=False):
     directed = (not signal_case) and strategy in ("balanced_market", "peak_load_window", "flex_window") and rng.random() < 0.3
     if directed:
         tight = True
+    if shared:
+        # several vehicles share a connector that can serve about one of them at full power: feasible by construction
+        # (finish() serves them one after the other and places each departure after its own finishing step)
+        tight, directed = False, False
+        nveh = rng.choice([2, 2, 3])
     if tight:
         nveh = 1
     P = rng.choice([11, 22, 50])
@@ -47,7 +52,7 @@ def gen(rng, strategy, signal_case=False):
           "charging_curve": [[0, P], [0.8, P], [1, P / 4]] if taper else [[0, P], [1, P]],
           "min_charging_power": 0 if rng.random() < 0.85 or strategy not in MINPOWER_STRATS else rng.choice([1, 2]), "v2g": False}
     cs_p = rng.choice([P, P, P / 2, 2 * P])
-    fixed = rng.random() < 0.5 or (directed and strategy != "peak_load_window")
+    fixed = (rng.random() < 0.5 or (directed and strategy != "peak_load_window")) and not shared
     fl_vals = [round(rng.uniform(0, 30), 2) for _ in range(n + 2)] if fixed else []
     if fixed and tight and not directed and rng.random() < 0.4:
         # a block of high building load in the middle (little head room there), low before and after
@@ -59,6 +64,8 @@ def gen(rng, strategy, signal_case=False):
         k = rng.randrange(1, n)
         fl_vals = [5.0] * k + [round(rng.uniform(20, 40), 2)] * (n + 2 - k)       # load rising later
     gc_max = nveh * cs_p + (max(fl_vals) if fixed else 0) + rng.choice([1, 10, 100])
+    if shared:
+        gc_max = cs_p + rng.choice([1, 3])
     if tight and (rng.random() < 0.5 or (directed and fixed)):
         gc_max = (max(fl_vals) if fixed else 0) + rng.choice([2, 5, cs_p / 2])
     comp = {"vehicle_types": {"vt": vt}, "vehicles": {}, "charging_stations": {}, "batteries": {}, "photovoltaics": {},
@@ -158,7 +165,7 @@ def gen(rng, strategy, signal_case=False):
         desired = rng.choice([0.6, 0.8, 0.9, 1.0])
         if desired <= soc0:
             desired = min(1.0, soc0 + 0.3)
-        arr_step = rng.choice([0, 0, rng.randrange(0, max(1, n // 3))])
+        arr_step = rng.choice([0, 0, rng.randrange(0, max(1, n // 3))]) if not shared else 0
         margin = rng.choice([1.0, 1.0, 1.3, 2.0, 3.0]) if not directed else rng.choice([1.3, 2.0])
         comp["vehicles"][vid] = {"vehicle_type": "vt", "soc": soc0, "desired_soc": desired, "_arr": arr_step, "_margin": margin, "_cs": cs}
     for sig in ev["grid_operator_signals"]:
@@ -168,7 +175,8 @@ def gen(rng, strategy, signal_case=False):
     return {"js": {"scenario": {"start_time": iso(start), "interval": interval, "n_intervals": n + 2}, "components": comp, "events": ev},
             "pattern": pat, "strategy": strategy, "extra": extra, "signal_case": signal_case,
             "dep_offset": rng.choice([0, 0, 0, -3, 4]), "seed": rng.randrange(10**6),
-            "enc_start": (next((i for i in range(n) if pat[i]), None) if directed else None), "enc_extra": rng.choice([1, 2, 4])}
+            "enc_start": (next((i for i in range(n) if pat[i]), None) if directed else None), "enc_extra": rng.choice([1, 2, 4]),
+            "shared": shared}
 
 
 def limit_series(js, n, with_fixed=True):
@@ -218,8 +226,34 @@ def finish(case, rng_seed=None):
     start = datetime.datetime.fromisoformat(js["scenario"]["start_time"])
     n = len(case["pattern"])
     comp = js["components"]
+    used = [0.0] * (n + 2)          # shared cases: power already given to the vehicles served earlier
     for vid, v in comp["vehicles"].items():
         a, margin, csid = v.pop("_arr"), v.pop("_margin"), v.pop("_cs")
+        if case.get("shared"):
+            from spice_ev.battery import Battery
+            from spice_ev.loading_curve import LoadingCurve
+            vt_ = comp["vehicle_types"]["vt"]
+            cs = comp["charging_stations"][csid]
+            b = Battery(vt_["capacity"], LoadingCurve(vt_["charging_curve"]), v["soc"], vt_.get("battery_efficiency", 0.95))
+            gmax = comp["grid_connectors"]["GC1"]["max_power"]
+            fin = None
+            for i in range(n):
+                if b.soc >= v["desired_soc"] - 1e-9:
+                    fin = i
+                    break
+                p_ = min(cs["max_power"], gmax - used[i])
+                if p_ > 1e-9:
+                    used[i] += b.load(dt, max_power=p_, target_soc=v["desired_soc"])["avg_power"]
+            if fin is None:
+                return None
+            d = min(n, math.ceil(max(fin, 1) * max(margin, 1.0)))
+            dep = start + dt * d
+            v["connected_charging_station"] = csid
+            v["estimated_time_of_departure"] = iso(dep)
+            js["events"]["vehicle_events"].append({
+                "signal_time": iso(dep), "start_time": iso(dep), "vehicle_id": vid, "event_type": "departure",
+                "update": {"estimated_time_of_arrival": iso(dep + datetime.timedelta(hours=30))}})
+            continue
         cs = comp["charging_stations"][csid]
         allowed = case["pattern"][a:] if case["signal_case"] else [True] * (n - a)
         head = limit_series(js, n + 2)[a:] if len(comp["vehicles"]) == 1 else None
